@@ -6,11 +6,12 @@
    truncate (SVD value conjunct); the step-size controller's accepted time points increase strictly
    and never pass time_end (over Q, for every sequence of positive step sizes).
    PARTIAL: implicit Euler / trapezoidal are exact only under the hypothesis "inner solve exact" (C07),
-   which is not discharged here; HOD, the error estimators and normalisation (sqrt) are covered by
-   model + correspondence + side check. *)
+   which is not discharged here; one HOD step before re-orthonormalisation is the dense recurrence
+   x_{k+1} = x_{k-1} + op_hod x_k (C09_hod_step; the series operator op_hod, the error estimators and normalisation
+   (sqrt) are covered by model + correspondence + side check). *)
 From Coq Require Import ZArith List Lia Arith QArith.
 Import ListNotations.
-Require Import Ring Sums Matrix Core Chain TTOps Sweep AddProof OpsProof SweepProof Ode OdeProof.
+Require Import Ring Sums Matrix Core Chain TTOps Sweep AddProof OpsProof SweepProof Ode OdeProof HodProof.
 Open Scope cr_scope.
 
 Theorem C09_eye_plus (R : cring) (c : R) (A : list (core R)) xs ys :
@@ -38,6 +39,14 @@ Theorem C09_explicit_euler (R : cring) thr maxr ansL ansR (h : R) (A x : list (c
   msum (cols (eye_plus h A)) (fun ys => (idelta xs ys + h * elem A xs ys) * elem x ys zs).
 Proof. exact (explicit_euler_dense thr maxr ansL ansR h A x xs zs). Qed.
 Print Assumptions C09_explicit_euler.
+
+Theorem C09_hod_step (R : cring) (op xprev x : list (core R)) xs zs :
+  xprev <> [] -> op <> [] -> length op = length xprev -> length x = length xprev ->
+  length xs = length xprev -> length zs = length xprev ->
+  wf xprev -> wf op -> wf x ->
+  elem (hod_step_raw op xprev x) xs zs = elem xprev xs zs + msum (cols op) (fun ys => elem op xs ys * elem x ys zs).
+Proof. exact (hod_step_dense op xprev x xs zs). Qed.
+Print Assumptions C09_hod_step.
 
 Theorem C09_adaptive_times (time tend : Q) (steps : list Q) :
   guarded time tend steps -> increasing_from time (run_accepts time tend steps) tend.
